@@ -162,9 +162,17 @@ func (m *monitor) runHistory(hc histCase) (judged int, nontrivial bool) {
 		var rd *scriptReader
 		var reader io.Reader
 		if isNativeStyle(st.Chunk) && st.Outcome == "ok" {
-			if st.Chunk == "bytes.Reader" {
+			switch st.Chunk {
+			case "bytes.Reader":
 				reader = bytes.NewReader(data)
-			} else {
+			case "bytes.Reader-after-header":
+				header := bytes.Repeat([]byte{0xa5, 'H'}, 1+st.ChunkSeed%32)
+				br := bytes.NewReader(append(append([]byte{}, header...), data...))
+				_, _ = io.CopyN(io.Discard, br, int64(len(header)))
+				reader = br
+			case "seek-refusing":
+				reader = noSeek{bytes.NewReader(data)}
+			default:
 				reader = strings.NewReader(string(data))
 			}
 		} else {
